@@ -69,9 +69,12 @@ type World struct {
 	constSet     map[string]bool
 	facts        []string
 	factBlock    []int // block index that generated the fact (-1 = global)
+	factTag      []string
 	curBlock     int
+	curTag       string
 	typeIDs      map[string]int
 	heapSorts    map[string]string // heap name -> SMT sort
+	heapValSort  map[string]*Sort  // heap name -> sort of the stored value
 	counter      int
 	assumptions  map[string]bool // trusted things actually used
 	unsupported  []string
@@ -88,7 +91,7 @@ func newWorld(p *Program, bv bool) *World {
 	w := &World{P: p, BV: bv,
 		sortDeclared: map[string]bool{}, structSorts: map[string]*Sort{}, structFields: map[string][]fieldInfo{},
 		funDeclared: map[string]bool{}, constSet: map[string]bool{}, typeIDs: map[string]int{},
-		heapSorts: map[string]string{}, assumptions: map[string]bool{}, curBlock: -1}
+		heapSorts: map[string]string{}, heapValSort: map[string]*Sort{}, assumptions: map[string]bool{}, curBlock: -1}
 	w.sortDecls = append(w.sortDecls,
 		"(declare-datatypes ((Slice 0)) (((mk-slice (s-arr Int) (s-off Int) (s-len Int) (s-cap Int)))))",
 		"(declare-datatypes ((Iface 0)) (((mk-iface (i-dyn Int) (i-val Int)))))")
@@ -142,6 +145,7 @@ func (w *World) declFun(name string, args []string, ret string) {
 func (w *World) addFact(f string) {
 	w.facts = append(w.facts, f)
 	w.factBlock = append(w.factBlock, w.curBlock)
+	w.factTag = append(w.factTag, w.curTag)
 }
 
 func (w *World) intSort(bits int, signed bool, gt types.Type) *Sort {
@@ -355,24 +359,28 @@ func sanitize(s string) string {
 func (w *World) fieldHeap(structSort *Sort, fi fieldInfo) string {
 	name := "H_" + strings.TrimPrefix(structSort.Name, "S_") + "." + fi.Name
 	w.heapSorts[name] = "(Array Int " + fi.Sort.Name + ")"
+	w.heapValSort[name] = fi.Sort
 	return name
 }
 
 func (w *World) elemHeap(es *Sort) string {
 	name := "E_" + sanitize(es.Name)
 	w.heapSorts[name] = "(Array Int (Array " + w.idxSortName() + " " + es.Name + "))"
+	w.heapValSort[name] = es
 	return name
 }
 
 func (w *World) cellHeap(s *Sort) string {
 	name := "C_" + sanitize(s.Name)
 	w.heapSorts[name] = "(Array Int " + s.Name + ")"
+	w.heapValSort[name] = s
 	return name
 }
 
 func (w *World) globalHeap(pkg *types.Package, name string, s *Sort) string {
 	h := "G_" + shortPkg(pkg) + "." + name
 	w.heapSorts[h] = s.Name
+	w.heapValSort[h] = s
 	return h
 }
 
@@ -432,4 +440,5 @@ func (w *World) predeclareSpecTypes() {
 func (w *World) popFact() {
 	w.facts = w.facts[:len(w.facts)-1]
 	w.factBlock = w.factBlock[:len(w.factBlock)-1]
+	w.factTag = w.factTag[:len(w.factTag)-1]
 }
